@@ -268,7 +268,27 @@ pub fn history(r: &mut Rng, res: &mut CaseResult, steps: usize) {
                     chans[a].actor.send(Cmd::RpcThenDropAllOnError);
                     h.wait(W, |st| st.reflex.held.iter().any(|x| x.ch == chid));
                 }
-                h.inject(chan_close_frame(chid, code, &text));
+                // in a third of the in-flight runs the awaited reply and the close arrive back to
+                // back in one read (the reply first): the caller gets its answer, the close
+                // error goes to the next call
+                let reply_then_close = inflight && r.chance(1, 3);
+                if reply_then_close {
+                    let close = chan_close_frame(chid, code, &text);
+                    h.reflex(|rf, out| {
+                        rf.hold_channels.remove(&chid);
+                        let mut bytes = Vec::new();
+                        let (mine, rest): (Vec<_>, Vec<_>) = rf.held.drain(..).partition(|x| x.ch == chid);
+                        rf.held = rest;
+                        for m in mine {
+                            bytes.extend(m.frames.concat());
+                        }
+                        bytes.extend(close);
+                        rf.note_server_bytes(&bytes);
+                        out.push(bytes);
+                    });
+                } else {
+                    h.inject(chan_close_frame(chid, code, &text));
+                }
                 let errk = format!("ServerClosedChannel({},{},{:?})", chid, code, text);
                 for c in cons.iter_mut().filter(|c| c.actor == a && c.term.is_none()) {
                     c.term = Some(Term::ServerClosedChannel(errk.clone()));
@@ -335,7 +355,22 @@ pub fn history(r: &mut Rng, res: &mut CaseResult, steps: usize) {
                 let code = r.next() as u16;
                 let text = wire::rand_shortstr(r);
                 block_some_actors(r, &chans, &h);
-                h.inject(conn_close_frame(code, &text));
+                if r.chance(1, 3) {
+                    // every withheld reply and the close in one read, replies first
+                    let close = conn_close_frame(code, &text);
+                    h.reflex(|rf, out| {
+                        rf.hold_channels.clear();
+                        let mut bytes = Vec::new();
+                        for m in rf.held.drain(..) {
+                            bytes.extend(m.frames.concat());
+                        }
+                        bytes.extend(close);
+                        rf.note_server_bytes(&bytes);
+                        out.push(bytes);
+                    });
+                } else {
+                    h.inject(conn_close_frame(code, &text));
+                }
                 let errk = format!("ServerClosedConnection({},{:?})", code, text);
                 for c in cons.iter_mut().filter(|c| c.term.is_none() && chans[c.actor].open) {
                     c.term = Some(Term::ServerClosedConnection(errk.clone()));
